@@ -74,7 +74,7 @@ Proof. exact (src_mapped). Qed.
 Print Assumptions C08_model_is_translated_source_mapped.
 
 (** ArrValue::slice: the get_idx closure, the empty / SliceArray decision and the fields of the view built,
-    for every length, every start/end other than i32::MIN, every step. *)
+    for every length, every i32 start/end (i32::MIN included since 4b122d6), every step. *)
 Theorem C08_model_is_translated_source_slice_ctor :
   forall v index end_ step, pos_ok index -> pos_ok end_ ->
     slice_ctor v index end_ step = decode_sres v (gen_slice (len_impl v) index end_ step).
@@ -112,13 +112,3 @@ Theorem C08_model_is_translated_source_range_ctor :
                     end) = Some (range_exclusive x y).
 Proof. exact (conj (proj1 src_range_empty) (conj (proj2 src_range_empty) src_range_exclusive)). Qed.
 Print Assumptions C08_model_is_translated_source_range_ctor.
-
-(** FINDING: the translated get_idx panics (`(-v)` overflows) for a position of i32::MIN, where the hand
-    model (and Jsonnet) clamp to 0 — the reason for [pos_ok] above. *)
-Theorem C08_source_slice_position_i32_min_refuted :
-  forall len default,
-    gen_slice_get_idx (Some i32_min) len default = None /\
-    slice_get_idx (Some i32_min) len default = (len - 2147483648)%N.
-Proof. exact (fun len default => conj (src_get_idx_i32_min len default) (model_get_idx_i32_min len default)). Qed.
-Print Assumptions C08_source_slice_position_i32_min_refuted.
-
